@@ -218,7 +218,7 @@ def _revive(k):
 class SymReal(object):
     """A finite real number denoted by a z3 term."""
     __slots__ = ("t",)
-    __array_priority__ = 1000
+
 
     def __init__(self, t):
         self.t = t
